@@ -36,7 +36,7 @@ def c05_runs(tier, scale):
 
 
 # request verbs whose response lines are compared verbatim (everything else: ok-lines verbatim, any err = err)
-EXACT_VERBS = {"sohdr", "sinkwriteall", "rabin", "crc64", "once", "rditems", "rdfile", "wrcheck"}
+EXACT_VERBS = {"crc32", "capread", "sohdr", "sinkwriteall", "rabin", "crc64", "once", "rditems", "rdfile", "wrcheck"}
 
 
 def c13_runs(tier, scale):
@@ -79,6 +79,12 @@ def c04_runs(tier, scale):
     if tier == "thorough":
         return [("c04", [400 * scale], None) for _ in range(12)] + [("c03", [1500 * scale, 30], None) for _ in range(4)]
     return [("c04", [60 * scale], None), ("c04", [60 * scale], None), ("c03", [250 * scale, 12], None)]
+
+
+def c15_runs(tier, scale):
+    if tier == "thorough":
+        return [("c15", [1], None), ("c04", [300 * scale], None), ("c05", [65536, 1], None)]
+    return [("c15", [0], None), ("c04", [40 * scale], None)]
 
 
 PROPS = {
@@ -274,5 +280,23 @@ PROPS = {
                      "excluded_by": "blocks are non-empty in the theorem (BlockOk); an empty block is covered by the oracle; the embedded schema's JSON<->Schema "
                                     "step is C10's subject (schema/env are parameters of the model reader); PrimFacts hypothesis inherited from C02"}],
         "assumptions": [],
+    },
+    "C15": {
+        "level": "other",
+        "lean_modules": ["AvroProofs.C15"],
+        "theorems": ["Avro.C15.snappy_frame", "Avro.C15.snappy_bad_crc", "Avro.C15.snappy_short", "Avro.C15.snappy_declared_size_bounded",
+                     "Avro.C15.capped_read"],
+        "harness": c15_runs,
+        "projection": "okerr",
+        "nontrivial": lambda l: True,
+        "rule": "codecs {null, snappy, deflate x 6 levels, bzip2 1-9, xz 0-9, zstandard 9 levels incl. >22} x payloads {empty, 1, 2 bytes, compressible, "
+                "text, incompressible 300 B / 40 KB (> deflate window), mixed 70 KB (> snappy block), thorough: 950 KB (> bzip2 block)}: crate round trip; "
+                "crate stream -> reference decompressor; reference stream -> crate; snappy trailer vs independent CRC-32 and every checksum bit flipped; "
+                "output cap at limit-1, limit, limit+1, 4*limit; out-of-range levels; plus C04's container-level interop files",
+        "explanation": "Proof for the library's own wrapper logic (snappy frame incl. checksum and length guards, output cap of the streaming decoders) in Lean; "
+                       "the compression algorithms are third-party and their round trip / interoperability is VALIDATED differentially against independent "
+                       "reference codecs (Python zlib(-15), bz2, lzma; own snappy raw codec and bit-serial CRC-32), not proved; zstandard: round trip only.",
+        "trusted_base": ["miniz_oxide, libbz2-rs, liblzma, snap, zstd, crc32fast (third-party, validated not proved)", "Python zlib/bz2/lzma as references"],
+        "assumptions": ["raw codec round trip (hypothesis of snappy_frame), validated by the harness"],
     },
 }
